@@ -3,7 +3,9 @@
    - every declared identifier is a TPTP lower_word and is declared exactly once (so no identifier
      has two types), and only declared types are used in signatures;
    - every formula is closed and well-typed: every variable is bound by a typed quantifier (whose
-     variables are upper_words), every functor/predicate is declared (or belongs to the built-in
+     variables are upper_words and, within one quantifier block, pairwise distinct: tptp4X, E and
+     cvc5 accept `![X: t, X: u]: ..` and let the later binder shadow the earlier one, but no
+     normative text fixes this, so the strict checker rejects such a block), every functor/predicate is declared (or belongs to the built-in
      $int signature: numerals, $uminus, $sum, $difference, $product, $less, $lesseq, $greater,
      $greatereq, $true, $false) and applied to arguments of the declared types, both sides of an
      (in)equality have the same type;
@@ -78,6 +80,7 @@ Fixpoint wt_formula (G : ctx) (f : tff_formula) : bool :=
   | TBin _ l r => wt_formula G l && wt_formula G r
   | TQ _ vs g =>
       negb (Nat.eqb (List.length vs) 0) && forallb (fun v => is_upper_word (fst v)) vs
+      && nodupb (map fst vs)
       && wt_formula (rev vs ++ G) g
   end.
 End Typing.
